@@ -65,14 +65,14 @@ class Discard(Exception):
     pass
 
 
-def build_engine(world, sim, yp_class, ctl, warmup=False):
+def build_engine(world, sim, yp_class, ctl, warmup=False, shadow=False):
     """compiles and loads the world into a fresh engine; returns (yp, qargs, qvars, held)"""
     from yldprolog.compiler import compile_prolog_from_string
     from yldprolog.engine import unify
     native_keys = {(n, a) for n, a, _, _ in world['native']}
-    src = progs.world_source(world, without=native_keys)
+    src = progs.world_source(world, without=set() if shadow else native_keys)
     for n, a, style, _ in world['native']:
-        if style == 'delegate':
+        if style in ('delegate', 'delegate-bounded'):
             rows_ = [rows for n2, a2, rows in world['facts'] if (n2, a2) == (n, a)][0]
             if rows_:
                 src += progs.fact_source(n + '_impl', rows_) + '\n'
